@@ -44,11 +44,18 @@ def ncases(tier):
 
 
 def gen(rng, idx, tier, seed):
-    return refcamx.gen_spec(rng, FMTS[idx % len(FMTS)])
+    spec = refcamx.gen_spec(rng, FMTS[idx % len(FMTS)])
+    if spec['fmt'] == 'uamiv':
+        # the property names gridded average and emissions files
+        # (AIRQUALITY/INSTANT files hold a single instant by convention)
+        spec['name'] = 'AVERAGE' if spec['name'] in ('AVERAGE', 'INSTANT') \
+            else 'EMISSIONS'
+    return spec
 
 
 def read_all(fmt, path, spec, reader, res):
     """-> (status, dims, vars, tflag)"""
+    dims = None
     try:
         with harness.step_budget(BUDGET) as b:
             f = open_lib(fmt, path, spec, reader=reader)
@@ -60,6 +67,10 @@ def read_all(fmt, path, spec, reader, res):
     except harness.StepBudgetExceeded as e:
         return 'hang', None, str(e), None
     except Exception as e:
+        if dims is not None:
+            # the open succeeded (the reader ACCEPTED the file and exposes
+            # dimensions); only the data access raised
+            return 'opened', dims, repr(e), None
         return 'raised', None, repr(e), None
 
 
@@ -83,6 +94,28 @@ def run(spec, res):
                      % (fmt, who, spec['nt'], info), fmt=fmt, reader=who,
                      nt=spec['nt'], sdate=spec['sdate'], shour=spec['shour'])
             return
+    if sm in ('ok', 'opened') and sr in ('ok', 'opened') and 'opened' in (
+            sm, sr):
+        # both accepted the file at open; one then failed to deliver data:
+        # the dimension lengths both expose are still comparable
+        problems = ['dimension %s: Memmap %d, Read %d' % (k, dm[k], dr[k])
+                    for k in dm if k in dr and dm[k] != dr[k]]
+        res.ev(dg, True, facets + ['opened-only:%s' % (
+            'Memmap' if sm == 'opened' else 'Read')])
+        res.note('data-access-raised-after-open:%s:%s' % (
+            'Memmap' if sm == 'opened' else 'Read', fmt))
+        if problems:
+            res.viol('readers-disagree:' + fmt, '%s nt=%d start %d %02d '
+                     'step %dh: %s (data access of the %s reader then '
+                     'raised %s)' % (fmt, spec['nt'], spec['sdate'],
+                                     spec['shour'], spec.get('dhour', 1),
+                                     '; '.join(problems[:4]),
+                                     'Memmap' if sm == 'opened' else 'Read',
+                                     (vm if sm == 'opened' else vr)[:120]),
+                     fmt=fmt, nt=spec['nt'], problems=problems[:8],
+                     sdate=spec['sdate'], shour=spec['shour'],
+                     after_open=True)
+        return
     if sm != 'ok' or sr != 'ok':
         res.ev(dg, False, facets + ['rejected:%s' % (
             'Memmap' if sm != 'ok' else 'Read')])
